@@ -189,7 +189,8 @@ PROPS["C09"] = dict(
           "non-trivial = judged and (the graph has a reference cycle or a missing name) and >=2 types; distinct by the printed spec"),
     assumptions=["a wall-clock budget of 20 s per call is only used to turn a hang into a recorded case; hitting it is reported with the case (never seen on the pinned tree)"],
     jobs=[job("graphs", "^TestTypeGraphs$", (4, 16), (6000, 200000), (900, 3000)),
-          job("layered", "^TestLayeredGraphs$", (1, 4), (120, 3000), (900, 3000))],
+          job("layered", "^TestLayeredGraphs$", (1, 4), (120, 3000), (900, 3000)),
+          job("one-name-two-tables", "^TestOneNameTwoTables$", (1, 2), (300, 6000), (600, 3000))],
 )
 PROPS["C16"] = dict(
     pkg="c16", level="exploration",
